@@ -27,6 +27,9 @@ pub enum Fate {
     WrongCodeAndOutput { code: i32 },
     /// killed by `sig` after `after_lines` of its output
     Die { sig: u8, after_lines: usize, no_expectations: bool },
+    /// writes all its lines, is then killed by `sig`; the document expects exit code `expected`
+    /// (128 + sig is what a parent shell would have reported - scrut has no exit code at all)
+    DieExpecting { sig: u8, expected: i32 },
     /// runs for `ns` then passes
     Slow { ns: u64 },
     Hang,
@@ -35,6 +38,8 @@ pub enum Fate {
     BgHold { ns: u64 },
     /// closes stdout and stderr (`exec >&- 2>&-`) and only then runs on for `ns` (None: forever)
     CloseThenLinger { ns: Option<u64> },
+    /// works for `before_ns`, closes stdout and stderr, runs on for `after_ns`, then ends with 0
+    LateClose { before_ns: u64, after_ns: u64 },
 }
 
 #[derive(Clone, Debug)]
@@ -131,6 +136,11 @@ impl G {
                 ops.push(Op::Die { sig: *sig });
                 no_expectations = *ne;
             }
+            Fate::DieExpecting { sig, expected } => {
+                emit(&mut ops, n, 0);
+                ops.push(Op::Die { sig: *sig });
+                expected_code = Some(*expected);
+            }
             Fate::Slow { ns } => {
                 emit(&mut ops, n / 2, 0);
                 ops.push(Op::Sleep { ns: *ns });
@@ -158,6 +168,14 @@ impl G {
                     }
                     None => ops.push(Op::Hang),
                 }
+            }
+            Fate::LateClose { before_ns, after_ns } => {
+                emit(&mut ops, n, 0);
+                ops.push(Op::Sleep { ns: *before_ns });
+                ops.push(Op::CloseFd { fd: 1 });
+                ops.push(Op::CloseFd { fd: 2 });
+                ops.push(Op::Sleep { ns: *after_ns });
+                ops.push(Op::Status { code: 0 });
             }
             Fate::BgHold { ns } => {
                 emit(&mut ops, n, 0);
@@ -351,12 +369,20 @@ pub fn fate_catalogue() -> Vec<(&'static str, Plan)> {
         ("die-segv-mid", Plan::new(Fate::Die { sig: 11, after_lines: 1, no_expectations: false })),
         ("die-term-end", Plan::new(Fate::Die { sig: 15, after_lines: 2, no_expectations: false })),
         ("die-abrt-noexp", Plan::new(Fate::Die { sig: 6, after_lines: 0, no_expectations: true })),
+        ("die-kill-expects-137", Plan::new(Fate::DieExpecting { sig: 9, expected: 137 })),
+        ("die-term-expects-143", Plan::new(Fate::DieExpecting { sig: 15, expected: 143 })),
+        ("die-segv-expects-139", Plan::new(Fate::DieExpecting { sig: 11, expected: 139 })),
+        ("die-kill-expects-9", Plan::new(Fate::DieExpecting { sig: 9, expected: 9 })),
+        ("die-hup-expects-1", Plan::new(Fate::DieExpecting { sig: 1, expected: 1 })),
+        ("die-int-expects-130", Plan::new(Fate::DieExpecting { sig: 2, expected: 130 })),
         ("slow-ok", Plan::new(Fate::Slow { ns: 2 * SEC })),
         ("hang-timeout", Plan::new(Fate::Hang).cfg(TestCfg { timeout_ns: Some(3 * SEC), ..Default::default() })),
         ("slow-timeout", Plan::new(Fate::Slow { ns: 10 * SEC }).cfg(TestCfg { timeout_ns: Some(3 * SEC), ..Default::default() })),
         ("detached", Plan::new(Fate::Detached)),
         ("bg-hold", Plan::new(Fate::BgHold { ns: 500 * MS })),
         ("close-then-linger-short", Plan::new(Fate::CloseThenLinger { ns: Some(300 * MS) })),
+        ("late-close-ok", Plan::new(Fate::LateClose { before_ns: 800 * MS, after_ns: 800 * MS }).cfg(TestCfg { timeout_ns: Some(2 * SEC), ..Default::default() })),
+        ("late-close-over", Plan::new(Fate::LateClose { before_ns: 1200 * MS, after_ns: 1700 * MS }).cfg(TestCfg { timeout_ns: Some(2 * SEC), ..Default::default() })),
         (
             "close-then-linger-past-timeout",
             Plan::new(Fate::CloseThenLinger { ns: Some(30 * SEC) }).cfg(TestCfg { timeout_ns: Some(2 * SEC), ..Default::default() }),
@@ -391,7 +417,7 @@ pub fn lane_fates(tier: Tier, seed: u64) -> Vec<Scenario> {
                     || plan.fate == Fate::Detached
                     || plan.cfg.skip_code.is_some()
                     // closing the one shell's outputs also swallows scrut's own dividers
-                    || matches!(plan.fate, Fate::CloseThenLinger { .. }))
+                    || matches!(plan.fate, Fate::CloseThenLinger { .. } | Fate::LateClose { .. }))
             {
                 continue; // per-test settings are not available in single-script mode
             }
@@ -497,6 +523,10 @@ pub enum DurClass {
     BgHold,
     /// closes its outputs at once, then keeps running well past the limit
     CloseLinger,
+    /// closes its streams at 0.6 of the limit and ends at 1.5 of it: must be aborted at the limit
+    LateCloseOver,
+    /// closes its streams at 0.4 of the limit and ends at 0.8 of it: must not be aborted
+    LateCloseUnder,
 }
 
 /// the systematic timing cross product of DESIGN §5.2
@@ -513,6 +543,8 @@ pub fn lane_timing(tier: Tier, seed: u64) -> Vec<Scenario> {
         DurClass::Hang,
         DurClass::BgHold,
         DurClass::CloseLinger,
+        DurClass::LateCloseOver,
+        DurClass::LateCloseUnder,
     ];
     // document limit: absent (-> 900 s), 0 = unlimited, short; given in front-matter or on the command line
     #[derive(Clone, Copy, Debug, PartialEq)]
@@ -597,7 +629,7 @@ pub fn lane_timing(tier: Tier, seed: u64) -> Vec<Scenario> {
                             };
                             let dur_ns = match (cls, bite) {
                                 (DurClass::Short, _) => 10 * MS,
-                                (DurClass::Hang, _) | (DurClass::BgHold, _) | (DurClass::CloseLinger, _) => 0,
+                                (DurClass::Hang, _) | (DurClass::BgHold, _) | (DurClass::CloseLinger, _) | (DurClass::LateCloseOver, _) | (DurClass::LateCloseUnder, _) => 0,
                                 (_, None) => match cls {
                                     DurClass::Long => 7200 * SEC,
                                     _ => SEC,
@@ -608,10 +640,10 @@ pub fn lane_timing(tier: Tier, seed: u64) -> Vec<Scenario> {
                                 (DurClass::Long, Some(b)) => b * 3 + SEC,
                                 _ => unreachable!(),
                             };
-                            if script && cls == DurClass::CloseLinger {
+                            if script && matches!(cls, DurClass::CloseLinger | DurClass::LateCloseOver | DurClass::LateCloseUnder) {
                                 continue;
                             }
-                            if bite.is_none() && matches!(cls, DurClass::Hang | DurClass::BgHold | DurClass::CloseLinger) {
+                            if bite.is_none() && matches!(cls, DurClass::Hang | DurClass::BgHold | DurClass::CloseLinger | DurClass::LateCloseOver | DurClass::LateCloseUnder) {
                                 continue; // nothing bounds the wait: scrut legitimately waits forever
                             }
                             let mut sim = base_sim(g.rng.next_u64());
@@ -630,6 +662,8 @@ pub fn lane_timing(tier: Tier, seed: u64) -> Vec<Scenario> {
                                         DurClass::Hang => Fate::Hang,
                                         DurClass::BgHold => Fate::BgHold { ns: bite.unwrap_or(SEC) * 2 + SEC },
                                         DurClass::CloseLinger => Fate::CloseThenLinger { ns: Some(bite.unwrap_or(SEC) * 2 + SEC) },
+                                        DurClass::LateCloseOver => Fate::LateClose { before_ns: bite.unwrap_or(SEC) * 6 / 10, after_ns: bite.unwrap_or(SEC) * 9 / 10 },
+                                        DurClass::LateCloseUnder => Fate::LateClose { before_ns: bite.unwrap_or(SEC) * 4 / 10, after_ns: bite.unwrap_or(SEC) * 4 / 10 },
                                         _ => Fate::Slow { ns: dur_ns },
                                     };
                                     let mut p = Plan::new(fate);
